@@ -674,6 +674,9 @@ def main(tier, seed, replay=None, prop=PROP):
                     jobs.append((pers, tgt, True, [(p, a)], ev0))
             if not single and tgt == 'TRaise':
                 jobs.append((pers, tgt, False, [], ev0))
+        if tier == 'quick' and not single:
+            # a target ending with a BaseException of its own: in quick at least the run without any injection
+            jobs.append((pers, 'TRaiseBase', True, [], []))
     with concurrent.futures.ThreadPoolExecutor(max_workers=8) as ex:
         futs = [(j, ex.submit(run_process, j[0], j[1], j[3], j[2])) for j in jobs]
         for (pers, tgt, rb, plan, ev0), fu in futs:
